@@ -23,6 +23,8 @@
   agree for a replace step (`commute_succeeds_around_gap`), another replace-around step
   (`commute_succeeds_around_around_gap`), a mark step (`commute_succeeds_around_mark_gap_partial`) and a node-mark / attr
   step (`commute_succeeds_around_nodeStep_gap_partial`); the guard cannot be dropped (example `gapGuard_needs`).
+  Without `commuteGuard`: an attr / remove-node-mark step outside `[from, to]` of a replace-around step with a closed
+  slice (`commute_succeeds_around_nodeStep_closed_partial`).
   Helper lemmas: Proofs/Commute.lean, Proofs/CommuteMarkup.lean, Proofs/CommuteSuccess.lean,
   Proofs/CommuteSuccessR.lean, Proofs/Lvl.lean; for replace-around steps Proofs/CommuteAround.lean,
   Proofs/CommuteAroundDocs.lean, Proofs/CommuteAroundMarkup.lean, Proofs/CommuteAroundSuccess.lean,
@@ -1254,19 +1256,13 @@ FULL STATEMENTS (not proved):
       ranges strictly outside `[from, to]` under `commuteGuard`, validity and `TextLoop`, next section.
 Proved: the node step strictly before `from` (its token may be an ancestor's open token) or strictly after `to`, under
 `commuteGuard`; inside the gap under `gapGuard` (`commute_succeeds_around_nodeStep_gap_partial`, last section).
-The guard is not forced for attr / remove-node-mark steps.  Route to a guard-free proof (not done), with what exists
-now: the rebased node step applies to `da` by `attrStep_applies` / `removeNodeMark_applies` (valid `da`, the node is
-found again by `nodeAtKids_of_head`); for the replace-around step on `db` use the target-based criterion
-`replaceKids_merged` (as in `commute_succeeds_around_gap`) with target `dab = N'(da)`.  It needs
-`RightRel S db.kids t dab.kids (from + |filled slice|)`:
-* node before the range (or an ancestor of it): chain `db ~ d ~ da ~ dab`; the outer links are "a node's markup
-  exchanged at or left of the position" — missing: `rightRel_lift_lvl` (a `RightRel` inside a nested level lifts to the
-  whole list: the `deep` case of `rightRel_after_lvl`, Proofs/GapInner.lean) and the one-level statement
-  `RightRel S (P ++ n° :: R) q (P ++ n :: R) q` for `q` behind `n`'s open token, plus `db.kids = ctx (P ++ n° :: R)`
-  (from `remarkAt` or from tokens and normal form);
-* node after the range: `d` is no bridge (the remainders differ in the node); missing: `RightRel.remark` — a
-  `RightRel` is kept when the same node to the right of both positions gets the same markup on both sides
-  (`splitRight (remarkAt L p u) t` in terms of `splitRight L t`).
+The guard is not forced for attr / remove-node-mark steps: for replace-around steps with a closed slice it is dropped
+in `commute_succeeds_around_nodeStep_closed_partial` (last section): the rebased node step applies to `da` by
+`attrStep_applies` / `removeNodeMark_applies` (valid `da`, the node is found again by `nodeAtKids_of_head`), the
+replace-around step reaches `dab = N'(da)` from `db` by the target-based criterion `replaceKids_merged`; the
+right-hand sides are related by `rightRel_remarkAt_before` (node before the range or an ancestor of it: chain
+`db ~ d ~ da ~ dab`) resp. `rightRel_remark` (node after the range: the relation `da ~ d` survives re-marking the
+corresponding node on both sides), Proofs/GapInner.lean.  Open: slices open on a side (a `lift` out of the middle).
 Mark steps: next two sections (outside `[from, to]`; inside the gap). -/
 
 /-- **a node-mark / attr step on a token strictly before a replace-around step's range, one of the two inside a node
@@ -2211,6 +2207,204 @@ theorem commute_succeeds_around_nodeStep_before_closed (S : Schema) (htr : compa
     simp only [List.length_singleton] at this
     rwa [show pos + 1 + (f - (pos + 1)) = f by omega, show pos + 1 + (t - (pos + 1)) = t by omega,
       show pos + 1 + (gf - (pos + 1)) = gf by omega, show pos + 1 + (gt - (pos + 1)) = gt by omega] at this
+
+/-- **an attr / remove-node-mark step strictly after a replace-around step with a closed slice: no `commuteGuard`** -/
+theorem commute_succeeds_around_nodeStep_after_closed (S : Schema) (htr : compatTransB S = true) (d da db : Node)
+    (f t gf gt ins : Nat) (sl : Slice) (st : Bool) (pos : Nat) (N : Step)
+    (hN' : (∃ m, N = .removeNodeMark pos m) ∨ (∃ nm v, N = .attr pos nm v))
+    (hv : C01.Valid S d) (hpv : C01.PayloadValid S d (.replaceAround f t gf gt sl ins st))
+    (hn : fnorm d.kids = true) (hsn : fnorm sl.content = true)
+    (hs : AroundShape f t gf gt sl ins) (hcl : sl.openStart = 0 ∧ sl.openEnd = 0) (hsep : t < pos)
+    (ha : S.apply (.replaceAround f t gf gt sl ins st) d = .ok da) (hb : S.apply N d = .ok db)
+    (hdaal : alignedAt da.kids f = true ∧ alignedAt da.kids (f + sl.toks.length + (gt - gf)) = true) :
+    ∃ N' dab, N.map (Step.replaceAround f t gf gt sl ins st).getMap = some N' ∧
+      (Step.replaceAround f t gf gt sl ins st).map N.getMap = some (.replaceAround f t gf gt sl ins st) ∧
+      S.apply N' da = .ok dab ∧ S.apply (.replaceAround f t gf gt sl ins st) db = .ok dab := by
+  have htr := compatTrans_of_B S htr
+  have hN : NodeStepAt pos N := by
+    rcases hN' with ⟨m, rfl⟩ | ⟨nm, v, rfl⟩
+    · exact .inr (.inl ⟨m, rfl⟩)
+    · exact .inr (.inr ⟨nm, v, rfl⟩)
+  have hsp : N.posSpan = some (pos, pos) := by
+    rcases hN with ⟨m, rfl⟩ | ⟨m, rfl⟩ | ⟨n, v, rfl⟩ <;> rfl
+  have hto : N.touch = some (pos, pos + 1) := by
+    rcases hN with ⟨m, rfl⟩ | ⟨m, rfl⟩ | ⟨n, v, rfl⟩ <;> rfl
+  obtain ⟨n, u, hnat, hu, hfrN⟩ := nodeStep_full S d db pos N hN hb
+  obtain ⟨hposlt, hdbT, htok, _, _, _, _⟩ := nodeRepl_toks S d db n u pos _ _ hnat hu hfrN
+  obtain ⟨hsz, hun⟩ := nodeSlice_facts S n u _ _ hu
+  obtain ⟨hre, _⟩ := recreate_remarked S n u _ _ hu
+  have hnt : n.isText = false := by
+    cases n with
+    | text s m => simp [Schema.recreate] at hu
+    | leaf => rfl
+    | elem => rfl
+  have hb2 : S.apply (.replace pos (pos + 1) ⟨[u], 0, if n.isLeaf then 0 else 1⟩ false) d = .ok db := by
+    simpa [Schema.apply] using hfrN
+  obtain ⟨gap, I, hgap, ho1, ho2, hinst, ha2, hio, hin, hisz, hl⟩ :=
+    around_as_replace S d da f t gf gt ins sl st hn hsn hs ha
+  obtain ⟨hwf, hins, hgo⟩ := id hs
+  have hnb := apply_replace_norm S d db pos (pos + 1) _ false hn hun hb2
+  have hna := apply_replace_norm S d da f t I false hn hin ha2
+  obtain ⟨hda, _, _, hleni⟩ := apply_replace_splice S d da f t I false ha2
+  obtain ⟨ty, a, m, K, Ka, rfl, rfl, hrA⟩ := fromReplace_parts S d da f t I
+    (apply_replace_fromReplace S _ _ _ _ _ false ha2)
+  simp only [Node.kids] at hn hna hda hl hdaal hnat hposlt htok
+  have hdbeq : db = .elem ty a m (remarkAt K pos u) := by
+    have := fromReplace_node S ty a m K pos n u hv hn hnat hre
+    rw [hfrN] at this
+    split at this
+    · simpa using this
+    · simp at this
+  subst hdbeq
+  simp only [Node.kids] at hnb hdbT
+  have FA := fwdFacts S ty K Ka f t I hrA
+  have hKalen : fsize Ka = f + I.toks.length + (fsize K - t) := FA.size
+  have hl' : t ≤ fsize K := by rw [← ftoks_length]; exact hl
+  -- the rebased node step
+  have hmap := (rebase_markup_not_dropped_around N pos pos hsp (Nat.le_refl _) f t gf gt sl ins st hgo).2.2 hsep
+  generalize hgdef : (fun p : Nat => ((p : Int) + ((ins : Int) - ((gf : Int) - f)) +
+    (sl.size - ins - ((t : Int) - gt))).toNat) = g at hmap
+  have hgpos : g pos = f + I.toks.length + (pos - t) := by
+    rw [← hgdef]; show ((pos : Int) + ((ins : Int) - ((gf : Int) - f)) + (sl.size - ins - ((t : Int) - gt))).toNat = _
+    omega
+  obtain ⟨c1, c2, c3⟩ := stepAttrs_mapPos N g pos hN
+  rw [hgpos] at c3
+  -- the node step on `da`
+  have hvda : S.checkNode (.elem ty a m Ka) = true := C01.apply_valid S _ _ _ hv hpv ha
+  have hp : pos < (ftoks K).length := by rw [ftoks_length]; exact hposlt
+  have htok' : (ftoks Ka)[f + I.toks.length + (pos - t)]? = some n.headTok := by
+    have := splice_window_after (ftoks K) I.toks f t pos 1 (by omega) (by omega) (by omega)
+    rw [← hda] at this
+    have h0 := congrArg (fun l => l[0]?) this
+    simp only [List.getElem?_take_of_lt (Nat.zero_lt_one), List.getElem?_drop, Nat.add_zero] at h0
+    rw [h0, List.getElem?_eq_getElem hp]
+    rw [List.getD_eq_getElem?_getD, List.getElem?_eq_getElem hp] at htok
+    simpa using htok
+  obtain ⟨n', hnat', hhd, hnt'⟩ := nodeAtKids_of_head Ka _ n.headTok (fnormKids_of_fnorm hna) htok'
+    (by cases n <;> simp [Node.headTok, Node.isText] at hnt ⊢)
+    (by intro c mm; cases n <;> simp [Node.headTok, Node.isText] at hnt ⊢)
+  obtain ⟨e1, e2, e3, e4⟩ := recreate_congr_head S n n' (stepAttrs N n.attrs) (stepMarks S N n.marks) hhd hnt hnt'
+  have hu' : S.recreate n' (stepAttrs (N.mapPos g) n'.attrs) (stepMarks S (N.mapPos g) n'.marks) = .ok u := by
+    rw [c1, c2 S, e2, e3, e1]; exact hu
+  obtain ⟨hre', _⟩ := recreate_remarked S n' u _ _ hu'
+  have hNg : (∃ mk, N.mapPos g = .removeNodeMark (f + I.toks.length + (pos - t)) mk) ∨
+      (∃ nm v, N.mapPos g = .attr (f + I.toks.length + (pos - t)) nm v) := by
+    rcases hN' with ⟨mk, rfl⟩ | ⟨nm, v, rfl⟩
+    · exact .inl ⟨mk, by simp [Step.mapPos, hgpos]⟩
+    · exact .inr ⟨nm, v, by simp [Step.mapPos, hgpos]⟩
+  have hNda : S.apply (N.mapPos g) (.elem ty a m Ka) =
+      .ok (.elem ty a m (remarkAt Ka (f + I.toks.length + (pos - t)) u)) := by
+    rcases hNg with ⟨mk, e⟩ | ⟨nm, v, e⟩
+    · rw [e] at hu' ⊢
+      exact removeNodeMark_applies S ty a m Ka _ mk n' u hvda hna hnat' hu'
+    · rw [e] at hu' ⊢
+      exact attrStep_applies S ty a m Ka _ nm v n' u hvda hna hnat' hu'
+  have hnat'' : (Node.elem ty a m Ka).nodeAt (f + I.toks.length + (pos - t)) = .ok (some n') := hnat'
+  have hvdab := C01.apply_valid S (N.mapPos g) _ _ hvda
+    (by rcases hNg with ⟨mk, e⟩ | ⟨nm, v, e⟩ <;> rw [e] <;> exact trivial) hNda
+  simp only [C01.Valid, checkNode_elem, Bool.and_eq_true] at hvdab
+  obtain ⟨_, hdabT, _, _, _, _, _⟩ := nodeRepl_toks S (.elem ty a m Ka) _ n' u _ _ _ hnat'' hu'
+    (by rw [← nodeStep_apply_of S (.elem ty a m Ka) n' u _ (N.mapPos g) c3 hnat'' hu']; exact hNda)
+  simp only [Node.kids] at hdabT
+  have hn2 : fnorm (remarkAt Ka (f + I.toks.length + (pos - t)) u) = true := by
+    have hb3 : S.apply (.replace (f + I.toks.length + (pos - t)) (f + I.toks.length + (pos - t) + 1)
+        ⟨[u], 0, if n'.isLeaf then 0 else 1⟩ false) (.elem ty a m Ka) =
+        .ok (.elem ty a m (remarkAt Ka (f + I.toks.length + (pos - t)) u)) := by
+      rw [← hNda, nodeStep_apply_of S (.elem ty a m Ka) n' u _ (N.mapPos g) c3 hnat'' hu']; simp [Schema.apply]
+    exact apply_replace_norm S (.elem ty a m Ka) _ _ _ _ false hna hun hb3
+  -- the replace of `[from, to)` on `db`, target `dab`
+  have hIo1 : I.openStart = 0 := by rw [hio]; exact hcl.1
+  have hIo2 : I.openEnd = 0 := by
+    rw [(insertAt_toks S sl I ins gap.content hwf hins hinst).2.2]; exact hcl.2
+  have hIcl : I = ⟨I.content, 0, 0⟩ := by cases I; simp at hIo1 hIo2; simp [hIo1, hIo2]
+  have hItl : I.toks.length = sl.toks.length + (gt - gf) := by
+    obtain ⟨e2, _⟩ := Slice.toks_length_of_wf_ex sl hwf
+    omega
+  obtain ⟨alKf, alKt⟩ := replaceKids_aligned S ty K f t I Ka hrA
+  obtain ⟨hszb, _⟩ := mapNodeAt_spec K pos n hnat hre
+  have hsameb : ∀ i, i < pos → (ftoks (remarkAt K pos u))[i]? = (ftoks K)[i]? := by
+    intro i hi
+    rw [hdbT, List.append_assoc, List.getElem?_append_left (by simp; omega), List.getElem?_take_of_lt hi]
+  have hsameab : ∀ i, i < f + I.toks.length + (pos - t) →
+      (ftoks (remarkAt Ka (f + I.toks.length + (pos - t)) u))[i]? = (ftoks Ka)[i]? := by
+    intro i hi
+    have hpa : f + I.toks.length + (pos - t) < (ftoks Ka).length := by rw [ftoks_length, hKalen]; omega
+    rw [hdabT, List.append_assoc, List.getElem?_append_left (by simp; omega), List.getElem?_take_of_lt hi]
+  have haf : alignedAt (remarkAt K pos u) f = true :=
+    alignedAt_transfer _ K f hnb hn (hsameb _ (by omega)).symm (hsameb _ (by omega)).symm alKf
+  have haf2 : alignedAt (remarkAt Ka (f + I.toks.length + (pos - t)) u) f = true :=
+    alignedAt_transfer _ Ka f hn2 hna (hsameab _ (by omega)).symm (hsameab _ (by omega)).symm hdaal.1
+  have R2 : RightRel S Ka (f + I.toks.length) K t :=
+    FA.rrel hn hin (.inl hIo1) (by rw [hItl, ← Nat.add_assoc]; exact hdaal.2)
+  have R3 := rightRel_remark S R2 pos (f + I.toks.length + (pos - t)) n n' hn hna (by omega) (by omega) (by omega)
+    hnat hnat' hre hre'
+  have hR : RightRel S (remarkAt K pos u) t (remarkAt Ka (f + I.toks.length + (pos - t)) u)
+      (f + (Slice.mk I.content 0 0).toks.length + (Slice.mk ([] : List Node) 0 0).toks.length) := by
+    have e0 : (Slice.mk ([] : List Node) 0 0).toks.length = 0 := by rw [Slice.toks_closed]; rfl
+    rw [← hIcl, e0, Nat.add_zero]
+    exact R3.symm
+  have htake : ∀ q, q ≤ pos → (ftoks (remarkAt K pos u)).take q = (ftoks K).take q := by
+    intro q hq
+    rw [hdbT, List.append_assoc, List.take_append_of_le_length (by simp; omega), List.take_take,
+      Nat.min_eq_left hq]
+  have hdb : depthAt (remarkAt K pos u) f - 0 + 0 = depthAt (remarkAt K pos u) t := by
+    have d1 := depthAt_of_take_eq K (remarkAt K pos u) f (by omega) (by omega) (htake f (by omega))
+    have d2 := depthAt_of_take_eq K (remarkAt K pos u) t (by omega) (by omega) (htake t (by omega))
+    have d3 := FA.depths
+    rw [hIo1, hIo2] at d3
+    omega
+  have htk : ftoks (remarkAt Ka (f + I.toks.length + (pos - t)) u) = (ftoks (remarkAt K pos u)).take f ++
+      ((Slice.mk I.content 0 0).toks ++ (Slice.mk [] 0 0).toks) ++ (ftoks (remarkAt K pos u)).drop t := by
+    have e0 : (Slice.mk ([] : List Node) 0 0).toks = [] := by rw [Slice.toks_closed]; rfl
+    rw [← hIcl, e0, List.append_nil, hdabT, hdbT, hda]
+    unfold splice
+    have h1 := splice_after (ftoks K) I.toks [u.headTok] f t pos (pos + 1) I.toks.length (by omega) (by omega)
+      (by omega) (by omega) rfl
+    have h2 := splice_before (ftoks K) I.toks [u.headTok] f t pos (pos + 1) (by omega) (by omega) (by omega)
+      (by omega)
+    rw [show f + I.toks.length + (pos + 1 - t) = f + I.toks.length + (pos - t) + 1 by omega] at h1
+    rw [h1, h2]
+  have hmerged := replaceKids_merged S ty (remarkAt K pos u) (remarkAt Ka (f + I.toks.length + (pos - t)) u) f t
+    I.content [] 0 0 hnb hvdab.1.1 hvdab.2 hn2 hin (by simp [fnorm, fnormKids, chainOk]) (Nat.zero_le _)
+    (Nat.zero_le _) (by omega) (by omega) htk haf haf2 hR (Nat.zero_le _) hdb (lcompat_zero S _ _ _ _)
+  have hfr : S.fromReplace (.elem ty a m (remarkAt K pos u)) f t I =
+      .ok (.elem ty a m (remarkAt Ka (f + I.toks.length + (pos - t)) u)) := by
+    have e : (Slice.mk (fappend I.content []) 0 0) = I := by rw [hIcl]; rfl
+    rw [e] at hmerged
+    simp [Schema.fromReplace, Schema.replace, hmerged, Except.map]
+  refine ⟨_, _, hmap, ?_, hNda, ?_⟩
+  · rw [getMap_of_touch N pos (pos + 1) hto]
+    exact replaceAround_map_empty f t gf gt sl ins st ⟨hgo.1, hgo.2.2⟩
+  · have hdbS : ftoks (Node.elem ty a m (remarkAt K pos u)).kids =
+        splice (ftoks (Node.elem ty a m K).kids) pos (pos + 1) [u.headTok] := by
+      simp only [Node.kids]; rw [hdbT]; rfl
+    exact around_again_same S (.elem ty a m K) (.elem ty a m (remarkAt K pos u)) (.elem ty a m Ka) _ f t gf gt ins
+      pos (pos + 1) sl [u.headTok] st gap I hn hnb hgo hsep (by omega) (by simp only [Node.kids]; omega) hdbS ha hgap
+      ho1 ho2 hinst hfr
+
+/-- **a replace-around step with a closed slice and an attr / remove-node-mark step on a token strictly outside
+    `[from, to]`: no `commuteGuard`** — neither rebased step is dropped, both orders apply, and they give the same
+    document.  `_partial` with respect to the full statement: closed slices only (`wrap`, `set_node_markup`,
+    `set_block_type`, whole-content `lift`), valid document and payload, `compatTransB`, aligned ends in `da`; an
+    add-node-mark step additionally needs that the parent of the addressed node still allows the mark in `da`. -/
+theorem commute_succeeds_around_nodeStep_closed_partial (S : Schema) (htr : compatTransB S = true) (d da db : Node)
+    (f t gf gt ins : Nat) (sl : Slice) (st : Bool) (pos : Nat) (N : Step)
+    (hN' : (∃ m, N = .removeNodeMark pos m) ∨ (∃ nm v, N = .attr pos nm v))
+    (hv : C01.Valid S d) (hpv : C01.PayloadValid S d (.replaceAround f t gf gt sl ins st))
+    (hn : fnorm d.kids = true) (hsn : fnorm sl.content = true)
+    (hs : AroundShape f t gf gt sl ins) (hcl : sl.openStart = 0 ∧ sl.openEnd = 0)
+    (hsep : pos + 1 < f ∨ t < pos)
+    (ha : S.apply (.replaceAround f t gf gt sl ins st) d = .ok da) (hb : S.apply N d = .ok db)
+    (hdaal : alignedAt da.kids f = true ∧ alignedAt da.kids (f + sl.toks.length + (gt - gf)) = true) :
+    ∃ N' dab, N.map (Step.replaceAround f t gf gt sl ins st).getMap = some N' ∧
+      (Step.replaceAround f t gf gt sl ins st).map N.getMap = some (.replaceAround f t gf gt sl ins st) ∧
+      S.apply N' da = .ok dab ∧ S.apply (.replaceAround f t gf gt sl ins st) db = .ok dab := by
+  rcases hsep with h | h
+  · obtain ⟨dab, h1, h2, h3, h4⟩ := commute_succeeds_around_nodeStep_before_closed S htr d da db f t gf gt ins sl st pos N
+      hN' hv hpv hn hsn hs hcl h ha hb hdaal
+    exact ⟨N, dab, h1, h2, h3, h4⟩
+  · exact commute_succeeds_around_nodeStep_after_closed S htr d da db f t gf gt ins sl st pos N hN' hv hpv hn hsn hs
+      hcl h ha hb hdaal
 
 /-- **a mark step strictly inside the kept gap, inside an element node of the gap content** (`gapGuard` with the open
     depths of the slice the mark step re-marks; e.g. marking text of a paragraph that is being wrapped or lifted):
